@@ -333,6 +333,9 @@ class SExpr(SV):
 
     def sv_getattr(self, it, name):
         if name == "name":
+            # only Symbols have a name (Number, Pow, Mul, ... raise AttributeError)
+            if not it.branch(e_kind(self.term) == K_SYM):
+                raise PyRaise("AttributeError")
             return expr_str(self.term)
         if name == "__repr__" or name == "__str__":
             return Intrinsic("expr." + name, lambda it_, s=self: expr_str(s.term))
